@@ -88,9 +88,12 @@ pub fn vencrypt_to_bytes<BE: DecryptWriteBackend>(be: &BE, data: &Bytes) -> (r: 
 // the pack writer (Actor + FileWriterHandle thread) as the log of the index blob lists of the packs handed to it
 pub struct Actor { pub sent: Ghost<Seq<Seq<IndexBlob>>> }
 impl Actor {
+    // waits for the writer thread; an error of any pack write so far is returned here.  WRITER_JOINED(n): a fact only
+    // this call can produce (n = packs handed over before, any value: only its existence matters)
     #[verifier::external_body]
-    pub fn finalize(self) -> (r: RusticResult<()>) { unimplemented!() }
+    pub fn finalize(self) -> (r: RusticResult<()>) ensures r is Ok ==> forall|n: int| #[trigger] WRITER_JOINED(n), { unimplemented!() }
 }
+pub uninterp spec fn WRITER_JOINED(n: int) -> bool;
 pub open spec fn sent_of(w: Option<Actor>) -> Seq<Seq<IndexBlob>> { match w { Some(a) => a.sent@, None => Seq::empty() } }
 
 // what may be handed to the pack writer: THE property of a finished pack.  The file is the blobs back
